@@ -199,3 +199,100 @@ func (c *Ctx) ruleDecodeSiblings(rule string) {
 		R.Check(setsN, rule, e.key+" consumed count", P.Pos(final), "out.n = start - len(b)", "the success return does not report the number of bytes consumed as the difference of the remaining length")
 	}
 }
+
+// R-CONSUMETAG-RANGE: protowire.ConsumeTag rejects field numbers below
+// MinValidNumber but not above MaxValidNumber (the tag varint can carry up to
+// 2^61). Every decoder loop built on ConsumeTag must reject those itself
+// before it acts on the number, as its siblings do; otherwise Unmarshal
+// accepts malformed input that the validator and the other decoders reject.
+var consumeTagRangeExempt = map[string]string{
+	"internal/encoding/messageset.SizeUnknown":   "re-reads the message's own unknown-field bytes, which the decoder stored after its range check; not a decoder of external input",
+	"internal/encoding/messageset.AppendUnknown": "re-reads the message's own unknown-field bytes, which the decoder stored after its range check; not a decoder of external input",
+}
+
+func (c *Ctx) ruleConsumeTagRange(rule string, pkgs []string, floor int) {
+	R, P := c.R, c.P
+	R.Rule(rule, "every call of protowire.ConsumeTag in the binary decoders is followed, before any other use of the returned number, by the rejection `num > protowire.MaxValidNumber` (error return), as in all sibling loops", floor)
+	for _, pkg := range pkgs {
+		for _, fi := range P.FuncsIn(pkg) {
+			if fi.Decl.Body == nil {
+				continue
+			}
+			info := fi.Info()
+			var g *FCFG
+			i := 0
+			walkAll(fi.Decl.Body, func(n ast.Node) bool {
+				as, ok := n.(*ast.AssignStmt)
+				if !ok || len(as.Rhs) != 1 || len(as.Lhs) != 3 {
+					return true
+				}
+				call, ok := as.Rhs[0].(*ast.CallExpr)
+				if !ok || calleeKey(info, call) != "encoding/protowire.ConsumeTag" {
+					return true
+				}
+				id, ok := as.Lhs[0].(*ast.Ident)
+				if !ok || id.Name == "_" {
+					return true
+				}
+				numObj := info.Defs[id]
+				if numObj == nil {
+					numObj = info.Uses[id]
+				}
+				i++
+				construct := fi.Key + " ConsumeTag#" + itoa(i)
+				if why, ok := consumeTagRangeExempt[fi.Key]; ok {
+					R.Exempt(rule, construct, P.Pos(call), why)
+					return true
+				}
+				if g == nil {
+					g = fi.CFG()
+				}
+				// every use of num other than the range test itself is dominated by the false edge of num > MaxValidNumber
+				bad := ""
+				uses := 0
+				walkAll(fi.Decl.Body, func(x ast.Node) bool {
+					uid, ok := x.(*ast.Ident)
+					if !ok || info.Uses[uid] != numObj || uid.Pos() < as.End() {
+						return true
+					}
+					uses++
+					dom := g.DominatedByCond(uid, func(core ast.Expr, val bool) bool {
+						be, ok := unparen(core).(*ast.BinaryExpr)
+						if !ok || val || be.Op != token.GTR || objOf(info, be.X) != numObj {
+							return false
+						}
+						nm, isC := labelName(info, be.Y)
+						return isC && nm == "MaxValidNumber"
+					})
+					if !dom {
+						// the range test itself
+						isTest := false
+						g2 := false
+						_ = g2
+						walkAll(fi.Decl.Body, func(y ast.Node) bool {
+							if be, ok := y.(*ast.BinaryExpr); ok && be.Op == token.GTR && be.X == ast.Expr(uid) {
+								if nm, isC := labelName(info, be.Y); isC && nm == "MaxValidNumber" {
+									isTest = true
+								}
+							}
+							return true
+						})
+						if !isTest && bad == "" {
+							bad = P.Pos(uid)
+						}
+					}
+					return true
+				})
+				switch {
+				case uses == 0:
+					R.OK(rule, construct, P.Pos(call), "number not used")
+				case bad != "":
+					R.Bad(rule, construct, P.Pos(call), "the field number returned by ConsumeTag is used at "+bad+" without having been rejected when above protowire.MaxValidNumber: records with numbers ≥ 2^29 are accepted (skipped as unknown) although the validator and the sibling decoders reject them")
+				default:
+					R.OK(rule, construct, P.Pos(call), "number used only after the MaxValidNumber rejection")
+				}
+				return true
+			})
+		}
+	}
+}
